@@ -148,6 +148,14 @@ _orig_compare = M.arr_compare
 
 
 def arr_compare(ex, st, op, l, r, node):
+    if isinstance(l, VArr) and l.ndim == 1 and l.tag == 'ivec' and l.t is not None and not isinstance(r, VArr) \
+            and isinstance(op, (ast.Eq, ast.NotEq)):
+        c = Z(ex.need_num(st, r, node))
+        used('v == c on an integer vector -> boolean mask, elementwise')
+        mk = ex.fresh('mask', BA)
+        f = (lambda x: x == c) if isinstance(op, ast.Eq) else (lambda x: x != c)
+        st.assume(z3.ForAll([_i], mk[_i] == f(l.t[_i]), patterns=[mk[_i], l.t[_i]]))
+        return VArr(l.shape, mk, 'bvec', 'b')
     if is_rvec(l) and not isinstance(r, VArr):
         c = to_real(ex.need_num(st, r, node))
         f = {ast.LtE: lambda x: x <= c, ast.Lt: lambda x: x < c, ast.GtE: lambda x: x >= c, ast.Gt: lambda x: x > c}.get(type(op))
